@@ -34,6 +34,9 @@ CLAIMED = {
  "C10": ("exploration", "deterministic simulation: hostile-frame fault kind from a raw protocol peer against the real server/client, process-death attribution by the supervisor; plus labelled input enumeration of the decoder",
          "A raw peer (polling POSTs or WebSocket) sends sequences of grammar-aware hostile Socket.IO frames, mixed with valid ones, to the real server while an honest real client shares it; a raw WebSocket server does the same to the real Go client. The worker process must survive, the honest connection must still complete an emit-with-ack, a new connection must be possible, the client API must return. Side run (input enumeration, kept apart): every string <= 4 (thorough 5) over the protocol alphabet and the whole corpus through Parser.Add + decode for 7 handler signature families.",
          "§7 C10", TB),
+ "C11": ("exploration", "deterministic simulation of the stream framer (sender and receiver tasks over a chunking simulated connection, cuts at byte offsets, silence after a header); plus labelled input enumeration of the pure codecs against a v4 reference encoder",
+         "The WebTransport length-prefix framer (send / nextPacket / limitedReader through verif exports) over a simulated connection with 1-byte..whole-frame chunking, latency and sender pauses: frames of the boundary lengths of all three prefix forms (0,1,124..128,65534..65537,70000) and random ones round-trip in order; a stream cut at a byte offset yields the intact prefix of frames and then an error, never a wrong packet; a header announcing L bytes followed by silence yields an error and no allocation beyond the limit. Side runs (input enumeration, kept apart): Packet.Encode/Decode/EncodedLen for every type x lengths 0..40,1000 x {raw, base64} and EncodePayloads/DecodePayloads/EncodedPayloadsLen for every sequence of 1..4 packets from a pool of 7, both against a reference v4 encoder; every byte string <= 3 (thorough 4) over 12 significant bytes into Decode/DecodePayloads/nextPacket without panic.",
+         "§7 C11", TB),
  "C13": ("exploration", "deterministic simulation: raw peer with exact framing (Content-Length / chunked / WebSocket / fragmented) at the limit boundaries, body-byte accounting; real-client bursts against small maxPayload; plus labelled exhaustive enumeration of the batcher",
          "Inbound: one message of exact wire size limit-1/limit/limit+1/10x limit by four framings against tiny/default/disabled limits - over-limit never reaches OnPacket, session closed, sender told, the library pulls <= limit+4 KiB out of the body; in-limit delivered and the session keeps working. Outbound: both directions around 32 KiB/64 KiB on every transport. Batch: concurrent bursts from the real polling client, every POST the server sees fits maxPayload, nothing dropped/duplicated/reordered. Side run (input enumeration): VerifClientBatches for every vector of <= 6 packet sizes x every maxPayload.",
          "§7 C13", TB),
